@@ -28,6 +28,7 @@ type Obligation struct {
 	Result *SolveResult
 	File   string
 	Inputs []*Term // terms whose model values are wanted
+	GetValues []*Term
 	Trivial bool
 }
 
@@ -592,10 +593,11 @@ func (e *Engine) mapLookup(st *State, m *types.Map, ref, key *Term) (Val, *Term)
 				none = append(none, Ne(key, k))
 			}
 			alts = append(alts, And(none...))
-			// only fork if key is not already excluded from all
 			if !st.norm(And(none...)).IsTrue() {
 				panic(&forkRequest{alts})
 			}
+			// key is known to differ from every key of the map
+			return zeroVal(m.Elem()), tFalse
 		}
 	}
 	has := And(Ne(ref, IntC(0)), Select(hasArr, key))
@@ -707,6 +709,11 @@ func (e *Engine) doTypeAssert(st *State, fr *Frame, x *ssa.TypeAssert) Val {
 	}
 	id := IntC(typeID(x.AssertedType))
 	okT := st.norm(Eq(tag, id))
+	if _, isPtr := x.AssertedType.Underlying().(*types.Pointer); isPtr && e.inModuleIface(x.X.Type()) && !okT.IsFalse() {
+		// assumption: module interfaces never hold typed nil pointers
+		e.AssumedDep["no typed-nil pointer inside a module interface value"]++
+		st.assume(Implies(okT, Ne(data, IntC(0))))
+	}
 	if x.CommaOk {
 		var val Val
 		if okT.IsFalse() {
